@@ -60,7 +60,8 @@ def run_one(m):
         open(p, "w").write(src.replace(m["old"], m["new"], 1))
         r = subprocess.run([os.path.join(HERE, "vcheck"), m["prop"]], capture_output=True, text=True)
         out = r.stdout + r.stderr
-        if "fact extraction failed" in out:
+        keys0 = [l.split("instance ")[1].strip() for l in out.splitlines() if "instance " in l]
+        if "fact extraction failed" in out and not (m["expect"] and any(m["expect"] in k for k in keys0)):
             return "BROKEN-MUTANT (does not compile)"
         if m["neutral"]:
             return "ok (silent)" if r.returncode == 0 else "FALSE-ALARM:\n" + out[-1500:]
